@@ -5,7 +5,7 @@ import core
 
 LEVEL = "model_checking"
 MATCHERS = {}
-LEAKS = ["order", "text", "mode", "noguard"]
+LEAKS = ["order", "text", "mode", "noguard", "hash"]
 
 
 def _cfg(name, leak, maxjobs, restarts, invs):
@@ -19,7 +19,8 @@ def _drive(acc, tier, hist_out):
     trace = os.path.join(core.BUILD, "C05_drive.ndjson")
     out = os.path.join(core.BUILD, "C05_drive.report.json")
     args = ["drive-history", "--trace", trace, "--out", out, "--scratch", os.path.join(core.BUILD, "c05_scratch"),
-            "--tlc-histories", "60" if tier == "quick" else "600", "--random-histories", "40" if tier == "quick" else "400"]
+            "--tlc-histories", "60" if tier == "quick" else "600", "--random-histories", "40" if tier == "quick" else "400",
+            "--gen-programs", "600" if tier == "quick" else "3000"]
     if hist_out:
         args += ["--hist", hist_out]
     core.run_vh(args, timeout=6000)
@@ -41,11 +42,12 @@ def run(tier, acc):
     acc.rule = ("M: CompileHistory.tla (global fresh-name counter, per-thread integer mode with RAII guard, 2 threads, 5 job classes "
                 "incl. failing ones and one that installs no mode, process restarts with other starting counter/mode); TLC checks Pure "
                 "and ModeRestored over all interleavings of <= 2 jobs + 1 restart, and that each leak variant (name order, name text, "
-                "inherited mode, guard not dropped on error) violates them. R: TLC-enumerated 3-job histories are instantiated with "
+                "inherited mode, guard not dropped on error, hash-set iteration order) violates them. R: TLC-enumerated 3-job histories are instantiated with "
                 "concrete programs and executed each in a fresh process (own hash seeds) with ARGNAME_CTR and the thread mode preset. "
                 "T: boundary histories (counters 0 8 9 98 99 998 99998, both modes, failed/other-dialect compile before, main vs spawned "
                 "thread, 1..8 concurrent threads) over generated and shipped programs; Trace_CompileHistory folds the observations into "
-                "the out relation. non-trivial = distinct jobs (source+options) observed in more than one history")
+                "the out relation; generated programs (half of them rich in repeated subexpressions) are compiled alone in five fresh processes "
+                "(own hash seeds) under the counters 0 8 98 998 99998. non-trivial = distinct jobs (source+options) observed in more than one history")
     acc.assumptions = ["entries of the symbol table that name compiler-synthesised helpers are compared up to the numeric suffix after _$_",
                        "thread interleaving inside a phase is left to the OS scheduler (no hook at gensym granularity)"]
     r = core.run_tlc("MC_CompileHistory", _cfg("MC_CompileHistory_run_none.cfg", "none", 2, 1, "Pure ModeRestored"), "C05_none", workers=12, timeout=1500)
